@@ -69,7 +69,7 @@ def check(repo: Repo, R) -> None:
             return "C04.6-last-connection-resolved"
         if r.startswith("C01.14-"):
             return "C04.6-last-connection-resolved"
-        if r.startswith("C01.15-") and ("follow" in k or "find_source" in k or "handle_portconn" in k):
+        if r.startswith("C01.15-") and ("follow" in k or "find_source" in k or "handle_portconn" in k or k.endswith("::collect")):
             return "C04.6-last-connection-resolved"
         return None
 
